@@ -175,7 +175,7 @@ func runC19(c *Ctx) {
 			helper = fn
 		}
 	}
-	r.Floor("no-truncating-rewrite", nw, 5, "file-writing calls in cmd/gosqlx")
+	r.Floor("no-truncating-rewrite", nw, 3, "file-writing calls in cmd/gosqlx")
 	c19Helper(c, p, helper, fns)
 	c19CheckMode(c, p)
 	c19JSON(c, p)
@@ -266,6 +266,21 @@ func c19Helper(c *Ctx, p *core.Prog, h *ssa.Function, fns []*ssa.Function) {
 			fromTemp := false
 			if ex, ok := w.Call.Args[0].(*ssa.Extract); ok && ex.Tuple == ssa.Value(createTemp) {
 				fromTemp = true
+			}
+			// the temporary kept in a variable that a closure captures: a cell whose only stores are CreateTemp's result
+			if ld, ok := w.Call.Args[0].(*ssa.UnOp); ok {
+				if cell, ok := ld.X.(*ssa.Alloc); ok {
+					n, all := 0, true
+					for _, ref := range core.Referrers(cell) {
+						if st, ok := ref.(*ssa.Store); ok && st.Addr == ssa.Value(cell) {
+							n++
+							if ex, ok := st.Val.(*ssa.Extract); !ok || ex.Tuple != ssa.Value(createTemp) {
+								all = false
+							}
+						}
+					}
+					fromTemp = n > 0 && all
+				}
 			}
 			if !fromTemp {
 				probs = append(probs, "the helper writes to a file that is not its temporary at "+p.Pos(w.Pos())+": the target itself is modified in place")
@@ -414,7 +429,7 @@ func c19CheckMode(c *Ctx, p *core.Prog) {
 			}
 		}
 	}
-	r.Floor("check-mode", n, 2, "file-writing calls in Formatter.Format")
+	r.Floor("check-mode", n, 1, "file-writing calls in Formatter.Format")
 }
 
 func c19JSON(c *Ctx, p *core.Prog) {
@@ -449,7 +464,7 @@ func c19JSON(c *Ctx, p *core.Prog) {
 			r.Violate("json-reports", core.FnName(fn), p.FnPos(fn), "a machine-readable report is not produced by encoding/json marshalling: it may be malformed for inputs containing quotes or control characters")
 		}
 	}
-	r.Floor("json-reports", n, 3, "JSON/SARIF report functions")
+	r.Floor("json-reports", n, 2, "JSON/SARIF report functions")
 }
 
 func fromJSONMarshal(v ssa.Value, depth int) bool {
